@@ -274,6 +274,8 @@ static Verdict run_case(const Case& c) {
   try {
     Verdict v = judge(g_funcs[c.fn], c.args, c.mode, c.dig);
     // recorded finding (KNOWN_FINDINGS: derivative-cancellation-extreme-magnitude): the mismatch occurs at an argument of extreme magnitude
+    // recorded finding (KNOWN_FINDINGS: gsl-laguerre-3-special-case): GSL's own special case a == -3 of gsl_sf_laguerre_3 returns -x^2/6 instead of -x^3/6
+    if ((v.cls == "deriv-mismatch" || v.cls == "hes-mismatch") && g_funcs[c.fn].name == "gsl_sf_laguerre_3" && c.args.size() == 2 && c.args[0] == -3) { v.cls += "@gsl-laguerre3"; return v; }
     if (v.cls == "deriv-mismatch" || v.cls == "hes-mismatch")
       for (double a : c.args) if (std::isfinite(a) && (std::fabs(a) >= 1e6 || (a != 0 && std::fabs(a) <= 1e-2))) { v.cls += "@extreme-magnitude"; break; }
     return v;
